@@ -7,7 +7,7 @@ use crate::{
     refmodel::ModelReplica,
     report::Report,
     sut::{Outcome, Sut},
-    universe::{ns_id, show_entries, universe, Spec, Val, K5, K7},
+    universe::{ns_id, show_entries, universe, Spec, Val, K5, K7, K9},
     util::{catch, fnv, for_each_sequence},
     Ctx, PropDef, Tier,
 };
@@ -23,7 +23,7 @@ pub fn def() -> PropDef {
             "ties between an entry and an equal-valued entry at a strict prefix go to the prefix (the only order-independent reading of the statement)",
         ],
         bound: |t| match t {
-            Tier::Quick => json!({"families": ["U45(A1,K5,ts1..3,x|y|DEL) depth<=3 remote path", "U45 depth<=2 all path assignments {remote,local}"]}),
+            Tier::Quick => json!({"families": ["U45(A1,K5,ts1..3,x|y|DEL) depth<=3 remote path", "U45 depth<=2 all path assignments {remote,local}", "U30(A1,{a\\xff\\xff,a\\xff,b,b\\x00,a},ts1..2) depth<=3 remote path"]}),
             Tier::Thorough => json!({"families": ["U24(A1,{'',a,ab,b},ts1..2) depth<=4 remote", "U63(A1,K7,ts1..3) depth<=3 all path assignments", "U45 depth<=3 all path assignments"]}),
         },
         run,
@@ -59,8 +59,19 @@ fn families(tier: Tier) -> Vec<Family> {
                 max_depth: 2,
                 all_paths: true,
             },
+            // runs of 0xFF bytes and their lexical neighbours
+            Family {
+                universe: universe(0, &[0], &[b"a\xff\xff", b"a\xff", b"b", b"b\x00", b"a"], 2),
+                max_depth: 3,
+                all_paths: false,
+            },
         ],
         Tier::Thorough => vec![
+            Family {
+                universe: universe(0, &[0], &[b"a\xff\xff", b"a\xff", b"b", b"b\x00", b"a", b"a\xff\xff\xff"], 2),
+                max_depth: 3,
+                all_paths: true,
+            },
             Family {
                 universe: universe(0, &[0], &[b"", b"a", b"ab", b"b"], 2),
                 max_depth: 4,
@@ -137,7 +148,7 @@ pub fn run_path(pre: &[Spec], steps: &[Step]) -> (Vec<(&'static str, Value, Stri
         outcomes.push(got);
     }
     // full state vs incremental model
-    for (oracle, detail) in check_state(&mut sut, 0, &model, &K7, &[0, 1]) {
+    for (oracle, detail) in check_state(&mut sut, 0, &model, &K9, &[0, 1]) {
         bad.push((oracle, json!({}), detail));
     }
     // order independence: state == spec(set(offered))
